@@ -38,7 +38,8 @@ def elastic_specs(draw, dim, classes=("iso", "tiso", "ortho", "aniso")):
         spec["angles"] = [draw(st.integers(0, 23)) * np.pi / 12 + 0.1 * draw(st.integers(0, 1))]
     else:
         spec["planeStress"] = False
-        spec["thickness"] = 1.0
+        # the constructors accept a thickness in 3D as well; it has no meaning there and must change nothing
+        spec["thickness"] = draw(st.sampled_from([1.0, 1.0, 0.35, 2.0]))
         spec["angles"] = [draw(st.integers(0, 11)) * np.pi / 6 + 0.1 for _ in range(3)]
     if cls == "iso":
         spec["E"] = _grid(draw, 1.0, 10.0)
